@@ -160,10 +160,18 @@ def gen_formula(rng, nts, depth=2, bound=None):
         return f"{gen_formula(rng, nts, depth - 1, bound)} or {gen_formula(rng, nts, depth - 1, bound)}"
     if r < 0.72:
         return f"({gen_formula(rng, nts, depth - 1, bound)})"
-    if r < 0.9:
+    if r < 0.82:
         v = rng.choice(["<x>", "<y>"])
         q = rng.choice(["forall", "exists"])
         return f"{q} {v} in {gen_selector(rng, nts, base=bound if bound and rng.random() < 0.4 else None)}: {gen_formula(rng, nts, depth - 1, v)}"
+    if rng.random() < 0.6:
+        # nested comprehension quantifiers over identifier-bound variables; the inner body mentions the outer variable
+        q1, q2 = rng.choice(["any", "all"]), rng.choice(["any", "all"])
+        cmp_ = rng.choice(["==", "==", "!=", "<"])
+        leafy = [n for n in nts if n in ("<ch>", "<d>", "<w>", "<val>", "<key>", "<t>", "<len>", "<x>", "<n>")] or nts
+        s1 = gen_selector(rng, nts, base=rng.choice(leafy), depth=0)
+        s2 = gen_selector(rng, nts, base=rng.choice(leafy), depth=0)
+        return f"{q1}({q2}(str(y) {cmp_} str(x) for y in *{s1}) for x in *{s2})"
     v = rng.choice(["<x>", "z"])
     q = rng.choice(["any", "all"])
     inner = gen_atom(rng, nts, v if v.startswith("<") else None)
